@@ -246,15 +246,26 @@ func Run(c Case) (ev.Info, error) {
 			}
 		}
 	}()
-	inject := func(tasks []NewTask) {
+	inject := func(tasks []NewTask) error {
 		var sb []string
 		for _, nt := range tasks {
 			sb = append(sb, nt.Queue+":"+nt.ID)
 		}
 		ch := op.ScheduleManager.Ch()
-		ch <- strings.Join(sb, ",")
-		ch <- ""
-		ch <- ""
+		for _, ev := range []string{strings.Join(sb, ","), "", ""} {
+			select {
+			case ch <- ev:
+			case <-time.After(20 * time.Second):
+				busy := []string{}
+				for _, n2 := range c.Queues {
+					if qs[n2].w.InFlight != nil {
+						busy = append(busy, n2)
+					}
+				}
+				return fmt.Errorf("the events handler did not take an event within 20s (queues inside a handler: %v): new tasks reach no queue any more, busy queues hold up all the others", busy)
+			}
+		}
+		return nil
 	}
 	// settle: every non-stalled queue with work and no in-flight handler must enter the handler on its head.
 	check := func(where string) error {
@@ -324,7 +335,9 @@ func Run(c Case) (ev.Info, error) {
 			for n, st := range qs {
 				before[n] = len(st.model)
 			}
-			inject(valid)
+			if err := inject(valid); err != nil {
+				return info, fmt.Errorf("%s: %v", where, err)
+			}
 			// find the task objects the handler created
 			for _, name := range c.Queues {
 				st := qs[name]
